@@ -147,7 +147,16 @@ func checkC14(r *Result) {
 					return strings.HasSuffix(c.Callee, "BankKeeper.SendCoinsFromModuleToAccount") && strings.HasPrefix(NewTermer().Of(Arg(c.Instr, 2)).Op, "param:4:")
 				}, T)},
 				{Name: "tipPositive", Stable: true, Cond: func(rel *Term) (bool, bool) {
-					return strings.HasSuffix(rel.Op, "Coins).IsAllPositive") && rel.Contains("DecodeDepositReportValue"), true
+					if !rel.Contains("DecodeDepositReportValue") {
+						return false, false
+					}
+					switch {
+					case strings.HasSuffix(rel.Op, "Coins).IsAllPositive"), strings.HasSuffix(rel.Op, "Coins).IsAnyPositive"):
+						return true, true
+					case strings.HasSuffix(rel.Op, "Coins).IsZero"), strings.HasSuffix(rel.Op, "Coins).Empty"):
+						return true, false
+					}
+					return false, false
 				}},
 			})
 			okAll, n, det := true, 0, ""
